@@ -80,7 +80,8 @@ def run(tier, seed, replay):
     for k in range(nh):
         size, cb, ro, ops = gen_hist(rng)
         cid = 'c19h_%d' % k
-        texts[cid] = 'bhist %s %d %d %d\n%s\nbend\n' % (cid, size, cb, ro, '\n'.join(ops))
+        tail = rng.choice([0, 0, 8, 64]) << cb
+        texts[cid] = 'bhist %s %d %d %d %d\n%s\nbend\n' % (cid, size, cb, ro, tail, '\n'.join(ops))
         lines.append(texts[cid])
     sp = os.path.join(d, 's.txt')
     open(sp, 'w').write(''.join(lines))
@@ -110,6 +111,15 @@ def run(tier, seed, replay):
             continue
         stats['cases'] += 1
         stats['steps'] += len(sim)
+        # without hole punching the guest-visible results must be the same (host file length may differ)
+        np_ = per.get('simnp')
+        if np_ is not None:
+            stats['compared_simnp'] += 1
+            simg = [x for x in sim if not x.startswith('final')]
+            if np_ != simg:
+                i = next((k for k in range(min(len(np_), len(simg))) if np_[k] != simg[k]), min(len(np_), len(simg)))
+                finds.append(('nopunch', cid, 'with hole punching unsupported (zero-write fallback) the history differs at step %d: %s | punching: %s' % (
+                    i, np_[i] if i < len(np_) else '(missing)', simg[i] if i < len(simg) else '(missing)'), text))
         for be in ('sync', 'tokio', 'uring'):
             got = per.get(be, [])
             if be in dead:
